@@ -252,3 +252,131 @@ func VerifC15_printf_translation() {
 	verifAssert(c.String() == "abc", "C15/printf/fmtifnum-leaves-text-alone")
 	verifReach("C15/printf/end")
 }
+
+// index / contains count CHARACTERS (1-up) and agree with each other; ssub / gssub replace the first /
+// every non-overlapping occurrence of a plain (not regex) needle; the strip family removes exactly
+// the leading / trailing / repeated blanks.  Haystack: up to three characters, each a symbolic ASCII
+// byte from {a, b, ., space} or a concrete 2- or 3-byte character; needle: one such character or two.
+//verif:opts maxpaths=200000 unwind=300
+func VerifC15_search_replace_and_strip() {
+	pick := func(tag string) string {
+		k := verifChoice(tag, 6)
+		return []string{"a", "b", ".", " ", "\xc3\xa9", "\xe2\x82\xac"}[k]
+	}
+	n := 1 + verifChoice("chars", 3)
+	var chars []string
+	s := ""
+	for i := 0; i < n; i++ {
+		c := pick("c")
+		chars = append(chars, c)
+		s += c
+	}
+	needleChars := []string{pick("n")}
+	if verifChoice("needle_two", 2) == 1 {
+		needleChars = append(needleChars, pick("n"))
+	}
+	needle := ""
+	for _, c := range needleChars {
+		needle += c
+	}
+	// first occurrence, in characters
+	pos := -1
+	for i := 0; i+len(needleChars) <= n && pos < 0; i++ {
+		ok := true
+		for k := range needleChars {
+			if chars[i+k] != needleChars[k] {
+				ok = false
+			}
+		}
+		if ok {
+			pos = i
+		}
+	}
+	in, nd := mlrval.FromString(s), mlrval.FromString(needle)
+	switch verifChoice("function", 4) {
+	case 0:
+		ix := BIF_index(in, nd)
+		want := int64(-1)
+		if pos >= 0 {
+			want = int64(pos + 1)
+		}
+		verifAssert(ix.IsInt() && ix.AcquireIntValue() == want, "C15/index/one-up-character-position-of-the-first-occurrence")
+		ct := BIF_contains(in, nd)
+		verifAssert(ct.IsTrue() == (pos >= 0), "C15/contains/agrees-with-index")
+	case 1:
+		// ssub: the first occurrence replaced, everything else byte for byte
+		want := s
+		if pos >= 0 {
+			want = ""
+			for i := 0; i < n; {
+				if i == pos {
+					want += "XY"
+					i += len(needleChars)
+				} else {
+					want += chars[i]
+					i++
+				}
+			}
+		}
+		verifAssert(BIF_ssub(in, nd, mlrval.FromString("XY")).String() == want, "C15/ssub/first-plain-occurrence-replaced")
+	case 2:
+		// gssub: every non-overlapping occurrence, left to right
+		want := ""
+		for i := 0; i < n; {
+			match := i+len(needleChars) <= n
+			for k := 0; match && k < len(needleChars); k++ {
+				if chars[i+k] != needleChars[k] {
+					match = false
+				}
+			}
+			if match {
+				want += "XY"
+				i += len(needleChars)
+			} else {
+				want += chars[i]
+				i++
+			}
+		}
+		verifAssert(BIF_gssub(in, nd, mlrval.FromString("XY")).String() == want, "C15/gssub/every-plain-occurrence-replaced")
+	case 3:
+		lead, trail := 0, 0
+		for lead < n && chars[lead] == " " {
+			lead++
+		}
+		for trail < n-lead && chars[n-1-trail] == " " {
+			trail++
+		}
+		join := func(cs []string) string {
+			o := ""
+			for _, c := range cs {
+				o += c
+			}
+			return o
+		}
+		verifAssert(BIF_lstrip(in).String() == join(chars[lead:]), "C15/lstrip/leading-blanks-only")
+		trailAlone := 0
+		for trailAlone < n && chars[n-1-trailAlone] == " " {
+			trailAlone++
+		}
+		verifAssert(BIF_rstrip(in).String() == join(chars[:n-trailAlone]), "C15/rstrip/trailing-blanks-only")
+		verifAssert(BIF_strip(in).String() == join(chars[lead:n-trail]), "C15/strip/both-ends")
+		// collapse: runs of blanks become one blank; clean = collapse then strip
+		var col []string
+		for i, c := range chars {
+			if c == " " && i > 0 && chars[i-1] == " " {
+				continue
+			}
+			col = append(col, c)
+		}
+		verifAssert(BIF_collapse_whitespace(in).String() == join(col), "C15/collapse-whitespace/runs-become-one-blank")
+		cl, ct := 0, 0
+		for cl < len(col) && col[cl] == " " {
+			cl++
+		}
+		for ct < len(col)-cl && col[len(col)-1-ct] == " " {
+			ct++
+		}
+		verifAssert(BIF_clean_whitespace(in).String() == join(col[cl:len(col)-ct]), "C15/clean-whitespace/collapse-then-strip")
+	}
+	verifReach("C15/search/end")
+}
